@@ -545,13 +545,10 @@ func (sc *serverConn) handleStreams() {
 	// canCloseAfterGoAway reports whether every stream the GOAWAY promised to
 	// finish has finished, so the connection can go.
 	//
-	// A GOAWAY that carries no reference has nothing to wait for and nothing to
-	// close on either: those paths break the loop where they send it.
+	// A reference of 0 means no stream had been opened when the GOAWAY went out,
+	// so there is nothing to wait for.
 	canCloseAfterGoAway := func() bool {
 		ref := atomic.LoadUint32(&sc.closeRef)
-		if ref == 0 {
-			return false
-		}
 
 		for _, strm := range strms {
 			if strm.origType == FrameHeaders && strm.ID() <= ref {
@@ -713,6 +710,12 @@ loop:
 					// only send go away on idle stream not on an already-closed stream
 					if fr.Stream() > sc.lastID {
 						sc.writeGoAway(fr.Stream(), ProtocolError, "RST_STREAM on idle stream")
+
+						// Nothing else may ever arrive to notice that there is
+						// nothing left to wait for.
+						if canCloseAfterGoAway() {
+							break loop
+						}
 					}
 
 					continue
@@ -730,6 +733,10 @@ loop:
 					case FramePriority, FrameWindowUpdate, FrameResetStream:
 					default:
 						sc.writeGoAway(fr.Stream(), StreamClosedError, "frame on closed stream")
+
+						if canCloseAfterGoAway() {
+							break loop
+						}
 					}
 
 					continue
@@ -754,6 +761,11 @@ loop:
 
 				if fr.Stream() < sc.lastID {
 					sc.writeGoAway(fr.Stream(), ProtocolError, "stream ID is lower than the latest")
+
+					if canCloseAfterGoAway() {
+						break loop
+					}
+
 					continue
 				}
 
